@@ -433,6 +433,25 @@ fn run(op: &Value) -> Value {
                 .into_iter().map(|(k, v)| (k.to_string(), v.to_string())).collect();
             json!({"ok": params == want, "params": format!("{:?}", params)})
         }
+        "double_map_laws" => {
+            // C14: DoubleOps for BTreeMap<i32, f64> on three concrete maps
+            use conjure_object::private::DoubleOps;
+            use std::collections::BTreeMap;
+            use std::hash::Hasher;
+            struct Rec(Vec<u8>);
+            impl Hasher for Rec {
+                fn finish(&self) -> u64 { 0 }
+                fn write(&mut self, b: &[u8]) { self.0.extend_from_slice(b); self.0.push(0xfe); }
+            }
+            let mk = |k: &str| -> BTreeMap<i32, f64> {
+                op[k].as_array().unwrap().iter().map(|e| (e[0].as_i64().unwrap() as i32, f64::from_bits(u64::from_str_radix(e[1].as_str().unwrap().trim_start_matches("0x"), 16).unwrap()))).collect()
+            };
+            let (a, b, c) = (mk("a"), mk("b"), mk("c"));
+            let o = |x: std::cmp::Ordering| x as i8;
+            let h = |m: &BTreeMap<i32, f64>| { let mut r = Rec(vec![]); DoubleOps::hash(m, &mut r); r.0 };
+            json!({"ab": o(DoubleOps::cmp(&a, &b)), "ba": o(DoubleOps::cmp(&b, &a)), "bc": o(DoubleOps::cmp(&b, &c)), "ac": o(DoubleOps::cmp(&a, &c)), "aa": o(DoubleOps::cmp(&a, &a)),
+                   "eq_ab": DoubleOps::eq(&a, &b), "eq_ba": DoubleOps::eq(&b, &a), "eq_aa": DoubleOps::eq(&a, &a), "hash_same": h(&a) == h(&b)})
+        }
         "nested_shapes" => {
             // C01/C05: Conjure behaviour re-applied below every container kind, natively (JSON and Smile)
             use std::collections::BTreeMap;
